@@ -2,7 +2,7 @@
 //
 //	gokernel <repo-root> <outdir>
 //
-// writes <outdir>/K<Module>.v for the modules Coinswap, Csr, Inflation, Epochs, Ante.  The committed files
+// writes <outdir>/K<Module>.v for the modules Coinswap, Csr, Inflation, Epochs, Erc20, Ante.  The committed files
 // coq/Gen/Agree<Module>.v prove each generated definition equal to the hand-written model; a semantic edit of
 // the Go source therefore makes an agreement lemma stop compiling.  Standard library only (go/parser, go/ast).
 // See README.md.
@@ -62,6 +62,12 @@ var modules = []moduleSpec{
 	}},
 	{name: "Epochs", inline: []string{"x/epochs/types/epoch_info.go"}, kernels: []kernelSpec{
 		{name: "BeginBlocker", file: "x/epochs/keeper/abci.go", fn: "BeginBlocker", kind: "closure"},
+	}},
+	{name: "Erc20", kernels: []kernelSpec{
+		{name: "convertCoinNativeCoin", file: "x/erc20/keeper/msg_server.go", fn: "convertCoinNativeCoin", kind: "func"},
+		{name: "convertERC20NativeCoin", file: "x/erc20/keeper/msg_server.go", fn: "convertERC20NativeCoin", kind: "func"},
+		{name: "convertERC20NativeToken", file: "x/erc20/keeper/msg_server.go", fn: "convertERC20NativeToken", kind: "func"},
+		{name: "convertCoinNativeERC20", file: "x/erc20/keeper/msg_server.go", fn: "convertCoinNativeERC20", kind: "func"},
 	}},
 }
 
